@@ -356,13 +356,14 @@ func (s *c39State) reconcile(ipamFail bool) {
 			}
 		}
 	}
-	// (b) a pool that was already allocatable is never displaced by a newer overlapping pool (holds whatever
-	// the cache looked like): an established pool loses its condition while an overlapping pool that was
+	// (b) a pool that was already allocatable is never displaced by a newer overlapping pool: an established pool loses its condition while an overlapping pool that was
 	// NOT established before the reconcile comes out of it allocatable.
 	for _, n := range c39Names(before) {
 		b := before[n]
 		a := after[n]
-		if !c39Established(b) || a == nil || a.Spec.Disabled || a.DeletionTimestamp != nil || c39CondTrue(a) {
+		if !freshP || !c39Established(b) || a == nil || a.Spec.Disabled || a.DeletionTimestamp != nil || c39CondTrue(a) {
+			// (on a stale pool cache the controller may legitimately believe in a different set of established
+			// pools; the effects of such reconciles are explored and judged at the next fresh reconcile)
 			continue
 		}
 		clash := false
@@ -726,7 +727,7 @@ func TestVerif_C39(t *testing.T) {
 			"transitions = user create/disable/enable/delete of pools over overlapping CIDRs, foreign-finalizer removal, block add/remove, pool-cache sync, block-cache sync, and the real IPPoolController.reconcile() " +
 			"(on whatever the caches hold, or preceded by a sync), replayed on a fresh controller; non-trivial = at least two pools with overlapping CIDRs exist")
 		c.Assume("API server model (trusted): optimistic concurrency on metadata.resourceVersion, /status subresource updates only status and main-resource updates never status (as the IPPool CRD declares), an object with deletionTimestamp disappears when its last finalizer goes; informer caches are snapshots of the truth at the time of the last sync event (pool and block caches independently)")
-		c.Assume("oracles (a) disjoint allocatable pools, (c) terminating pools keep masking and (d') finalizer on allocatable pools with blocks are evaluated after reconciles that started on fresh caches and returned no error; (b) no displacement of an established pool after every reconcile; (d) no release of a formerly allocatable terminating pool with blocks whenever the block cache was fresh (stale-block-cache occurrences are only counted)")
+		c.Assume("oracles (a) disjoint allocatable pools, (c) terminating pools keep masking and (d') finalizer on allocatable pools with blocks are evaluated after reconciles that started on fresh caches and returned no error; (b) no displacement of an established pool by a newcomer after every reconcile that started on a fresh pool cache; (d) no release of a formerly allocatable terminating pool with blocks whenever the block cache was fresh (stale-block-cache occurrences are only counted)")
 		c.Assume("IPv4 only; ReleasePoolAffinities is a stub (optionally failing); 'allocatable' is IPAM's reading (not deleting, not disabled, no Allocatable=False condition)")
 		quick := &c39Universe{
 			Pools:  []c39PoolDef{{Name: "p24", CIDR: "10.0.0.0/24"}, {Name: "p25a", CIDR: "10.0.0.0/25"}, {Name: "p25b", CIDR: "10.0.0.128/25"}},
